@@ -6,6 +6,7 @@ import (
 	"math/rand"
 	"os"
 	"runtime"
+	"runtime/debug"
 	"sort"
 	"strings"
 	"testing"
@@ -193,6 +194,24 @@ func newWatchdog(limit time.Duration) *watchdog {
 	return w
 }
 
+var gcCount int
+
+// betweenRuns collects garbage outside any bubble: every 16 runs, or at once when the heap is large.
+func betweenRuns() {
+	gcCount++
+	if gcCount%16 == 0 {
+		runtime.GC()
+		return
+	}
+	var ms runtime.MemStats
+	if gcCount%4 == 0 {
+		runtime.ReadMemStats(&ms)
+		if ms.HeapAlloc > 384<<20 {
+			runtime.GC()
+		}
+	}
+}
+
 // ChildMain is the entry point of a child process.
 func ChildMain(t *testing.T) {
 	jp := os.Getenv("VERIF_JOB")
@@ -209,6 +228,10 @@ func ChildMain(t *testing.T) {
 		fmt.Fprintln(os.Stderr, err)
 		os.Exit(2)
 	}
+	// Goroutine order between two scheduling points must not depend on the garbage collector
+	// (assists and preemption reorder goroutines): collect only between runs.
+	debug.SetGCPercent(-1)
+	debug.SetMemoryLimit(3 << 30)
 	p := Properties[job.Property]
 	if p == nil {
 		fmt.Fprintln(os.Stderr, "unknown property", job.Property)
@@ -262,6 +285,7 @@ func childExplore(t *testing.T, p *Property, job *Job) {
 		wd.ch <- fmt.Sprintf("%s i=%d", p.ID, i)
 		res := p.Run(t, w, sc)
 		wd.ch <- ""
+		betweenRuns()
 		_ = idx
 		sum.Runs++
 		sum.Steps += int64(res.Steps)
@@ -510,7 +534,12 @@ func childSelftest(t *testing.T, p *Property, job *Job) {
 		wd.ch <- fmt.Sprintf("selftest %d", i)
 		res := p.Run(t, w, sc)
 		wd.ch <- ""
+		betweenRuns()
 		lines = append(lines, line{I: i, Hash: fmt.Sprintf("%x", res.LogHash), V: oracleSet(res.Violations)})
+		if d := os.Getenv("VERIF_DUMPLOG"); d != "" {
+			wj, _ := json.Marshal(w)
+			os.WriteFile(fmt.Sprintf("%s/%d.%d.log", d, i, os.Getpid()), []byte(string(wj)+"\n"+sc.Strategy+"\n"+strings.Join(res.Log, "\n")+"\n"), 0o644)
+		}
 	}
 	appendLine(job.Out, map[string]any{"ev": "selftest", "lines": lines})
 }
